@@ -1070,7 +1070,7 @@ func init() {
 			info := pkg.TypesInfo
 			// locals that hold the typedef's name: assigned from an expression mentioning UserData()
 			tagVars := map[types.Object]bool{}
-			for pass := 0; pass < 2; pass++ {
+			for pass := 0; pass < 4; pass++ {
 				ast.Inspect(fd.Body, func(n ast.Node) bool {
 					as, ok := n.(*ast.AssignStmt)
 					if !ok || len(as.Lhs) != len(as.Rhs) {
@@ -1084,9 +1084,13 @@ func init() {
 						if strings.Contains(types.ExprString(r), "UserData()") {
 							tagVars[o] = true
 						}
-						if ro := identObj(info, r); ro != nil && tagVars[ro] {
-							tagVars[o] = true
-						}
+						// … or from an expression that reads one of them (def := v.UserData(); name = def.Cells[0].Str)
+						ast.Inspect(r, func(k ast.Node) bool {
+							if id, ok := k.(*ast.Ident); ok && tagVars[info.Uses[id]] {
+								tagVars[o] = true
+							}
+							return true
+						})
 					}
 					return true
 				})
